@@ -3,7 +3,7 @@
 //! (`sway_lsp::verif_sched`, every shared-state access is a held point).
 //!
 //! One protocol line per run:
-//!   `sched <tokens…> ;; trace=<tid:point,…> end=q:<0|1>,stuck:<n>,lc:<v|none>,latest:<v> skipped=<n>`
+//!   `sched <tokens…> ;; <quiescent|stuck|running> trace=<tid:point,…> end=q:<0|1>,stuck:<n>,lc:<v|none>,latest:<v> skipped=<n> tok=<v|none> cls=<ch|vl><+|-> | none`
 //! schedule tokens: `+open|+change|+save|+wait` (start the next handler = first poll), `w` (let the
 //! worker pass its next point), `h<k>` (let handler k pass its next point). Handler switches happen
 //! only where the real server can switch (handler future returned Pending or finished), the worker
@@ -338,8 +338,9 @@ fn run_one(script: &[String], mut plan: Vec<Kind>, mut rng: Option<&mut Rng>, ba
         }
         match last { None => "none".to_string(), Some((k, after)) => format!("{}{}", if k == Kind::Change { "ch" } else { "vl" }, if after { "+" } else { "-" }) }
     };
-    let line = format!("sched {} ;; trace={} end=q:{},stuck:{},lc:{},latest:{} skipped={} tok={} cls={}",
+    let line = format!("sched {} ;; {} trace={} end=q:{},stuck:{},lc:{},latest:{} skipped={} tok={} cls={}",
         if r.sched.is_empty() { "-".to_string() } else { r.sched.join(" ") },
+        if !quiescent { "running" } else if stuck > 0 { "stuck" } else { "quiescent" },
         if trace.is_empty() { "-".to_string() } else { trace.join(",") },
         quiescent as u8, stuck, lc.map_or("none".to_string(), |v| v.to_string()), r.latest, r.skipped,
         tokv.map_or("none".to_string(), |v| v.to_string()), cls);
